@@ -90,7 +90,7 @@ struct DocGen {
             else s += " v=\"" + std::to_string(g.range(-5, 40)) + "\"";
         }
         s += " rk=\"" + std::to_string(g.below(100000)) + "\"";
-        if (idn > 0 && g.chance(1, 4)) s += " ref=\"n" + std::to_string(g.below(idn)) + "\"";
+        if (idn > 0 && g.chance(1, 4)) s += " ref=\"n" + std::to_string(g.chance(1, 3) ? idn + 1 + g.below(6) : g.below(idn)) + "\"";      // a third of the references point forwards
         if (g.chance(1, 8)) s += " t=\"" + xmlEsc(text(), true) + "\"";
         if (c.ns && g.chance(1, 8)) s += " p1:x=\"" + std::to_string(g.below(9)) + "\"";
         if (c.ns && g.chance(1, 12)) s += " xml:lang=\"" + std::string(g.chance(1, 2) ? "en" : "fr-CA") + "\"";
@@ -260,6 +260,7 @@ struct SSCfg {
     bool cdataElems = false;
     std::string abortKind;           // "", message, key, extfn, encoding, badname
     std::string abortNode;           // node id at which the abort fires
+    int abortPlace = 0;              // 0 in the template | 1 three iterations deep | 2 inside a variable body after some text
     std::string order = "doc";       // visiting order of //*: doc | rk | rev
     bool useImport = false, useInclude = false;
     bool omitDecl = false;
@@ -289,7 +290,7 @@ inline const std::vector<std::string>& allFeatures() {
         "lre", "message", "modes", "sort2", "comment-pi", "exslt-set", "exslt-math", "exslt-str", "genid", "lang", "sysprop", "param", "ifbool",
         "union", "preds", "valnum", "apply-imports", "text-nodes", "ns-axis", "doctype-node", "attr-nodes", "number-value", "bigfmt", "xalan-ext", "docfn", "avt-ns", "extfn", "paramuse", "gate", "num-gate", "sortlang", "num-value", "lazyvar", "manyrtf", "deeprec", "padsupp", "top-nodes", "doe", "sort-gate", "bignum-alpha",
         "num-punct", "num-exotic", "ext-evaluate", "rtf-key", "key-prefixed", "key-variant",
-        "nsalias", "withparam", "fmtnum-pat", "doc2", "unparsed-entity", "nsfix", "numconv", "keynodeset", "randexpr", "manydf", "axes-matrix"
+        "nsalias", "withparam", "fmtnum-pat", "doc2", "unparsed-entity", "nsfix", "numconv", "keynodeset", "randexpr", "manydf", "axes-matrix", "num-groupsep"
     };
     return f;
 }
@@ -340,12 +341,12 @@ struct SSGen {
         if (on("choose")) perNode += "<o f=\"choose\" n=\"{@id}\"><xsl:choose><xsl:when test=\"@v &gt; 20\">big</xsl:when><xsl:when test=\"@v &lt; 0\">neg</xsl:when><xsl:when test=\"not(@v)\">none</xsl:when><xsl:otherwise>small</xsl:otherwise></xsl:choose></o>";
         if (on("elemattr")) perNode += "<o f=\"elemattr\" n=\"{@id}\"><xsl:element name=\"{concat('g', count(*))}\" namespace=\"urn:x-gen-{@k}\"><xsl:attribute name=\"q:at\" namespace=\"urn:x-q\"><xsl:value-of select=\"@v\"/></xsl:attribute><xsl:attribute name=\"plain\">p<xsl:value-of select=\"@k\"/></xsl:attribute></xsl:element></o>";
         if (on("attrset")) { top += "<xsl:attribute-set name=\"as1\"><xsl:attribute name=\"s1\">one</xsl:attribute><xsl:attribute name=\"s2\"><xsl:value-of select=\"@id\"/></xsl:attribute></xsl:attribute-set><xsl:attribute-set name=\"as2\" use-attribute-sets=\"as1\"><xsl:attribute name=\"s1\">over</xsl:attribute></xsl:attribute-set>";
-            perNode += "<o f=\"attrset\" n=\"{@id}\"><w xsl:use-attribute-sets=\"as2\" s3=\"lit\"/><xsl:element name=\"w2\" use-attribute-sets=\"as1\"/></o>"; }
+            perNode += "<o f=\"attrset\" n=\"{@id}\"><w xsl:use-attribute-sets=\"as2\" s3=\"lit\"/><xsl:element name=\"w2\" use-attribute-sets=\"as1\"/><xsl:element name=\"{concat(substring('1', 1, number(@v = 3 or @k = 'k2')), 'w3')}\" use-attribute-sets=\"as2\"><xsl:attribute name=\"own\">o</xsl:attribute>in<xsl:element name=\"w4\" use-attribute-sets=\"as1\"/></xsl:element></o>"; }
         if (on("lre")) perNode += "<o f=\"lre\" n=\"{@id}\"><p1:lit a=\"{@k}-{@v}\" b=\"{{x}}\" xmlns:zz=\"urn:x-zz\"><zz:in/></p1:lit></o>";
         if (on("avt-ns")) perNode += "<o f=\"avt-ns\" n=\"{@id}\"><xsl:element name=\"px:e\" namespace=\"{concat('urn:x-dyn-', namespace-uri())}\"/><xsl:element name=\"{name()}\"/></o>";
         if (on("message")) perNode += "<xsl:if test=\"@v = 7\"><xsl:message>note <xsl:value-of select=\"@id\"/></xsl:message></xsl:if>";
         if (on("sort2")) perNode += "<o f=\"sort2\" n=\"{@id}\"><xsl:for-each select=\"*\"><xsl:sort select=\"@k\" order=\"descending\"/><xsl:sort select=\"@v\" data-type=\"number\"/><xsl:value-of select=\"@id\"/>,</xsl:for-each>|<xsl:for-each select=\"*\"><xsl:sort select=\"name()\" case-order=\"upper-first\" lang=\"en\"/><xsl:value-of select=\"@id\"/>,</xsl:for-each></o>";
-        if (on("comment-pi")) perNode += "<o f=\"comment-pi\" n=\"{@id}\"><xsl:comment>c <xsl:value-of select=\"@id\"/></xsl:comment><xsl:processing-instruction name=\"tgt\">d <xsl:value-of select=\"@k\"/></xsl:processing-instruction><m>pre<xsl:value-of select=\"@k\"/><xsl:comment>in</xsl:comment>mid<xsl:processing-instruction name=\"tgt2\">e</xsl:processing-instruction>post<i/>tail<xsl:comment/></m></o>";
+        if (on("comment-pi")) perNode += "<o f=\"comment-pi\" n=\"{@id}\"><xsl:comment>c <xsl:value-of select=\"@id\"/></xsl:comment><xsl:processing-instruction name=\"tgt\">d <xsl:value-of select=\"@k\"/></xsl:processing-instruction><m>pre<xsl:value-of select=\"@k\"/><xsl:comment>in</xsl:comment>mid<xsl:processing-instruction name=\"tgt2\">e</xsl:processing-instruction>post<i/>tail<xsl:comment/><xsl:comment>a---b----<xsl:value-of select=\"@k\"/>-</xsl:comment><xsl:comment>--</xsl:comment><xsl:comment>-<xsl:value-of select=\"substring('-----', 1, count(*))\"/></xsl:comment></m></o>";
         if (on("exslt-set")) perNode += o("exslt-set", vo("count(set:distinct(*/@k))") + "," + vo("count(set:difference(*, *[@v]))") + "," + vo("count(set:intersection(*, *[@k]))") + "," + vo("set:has-same-node(*, *[1])") + "," + vo("count(set:leading(*, *[3]))") + "," + vo("count(set:trailing(*, *[2]))"));
         if (on("exslt-math")) perNode += o("exslt-math", vo("math:max(*/@v)") + "," + vo("math:min(*/@v)") + "," + vo("count(math:highest(*/@v))") + "," + vo("math:abs(@v)") + "," + vo("math:sqrt(16)") + "," + vo("math:power(2, 10)"));
         if (on("exslt-str")) perNode += o("exslt-str", vo("str:padding(5, 'ab')") + "," + vo("str:align(@id, '--------', 'right')") + "," + vo("str:concat(*/@k)") + "," + vo("str:encode-uri(concat(@k, ' /x'), false())"));
@@ -409,6 +410,8 @@ struct SSGen {
             static const char* const ax[] = { "following::*", "preceding::*", "ancestor::*", "parent::*", "following-sibling::node()", "preceding-sibling::node()", "descendant-or-self::node()", "ancestor-or-self::node()", "self::node()", "child::node()", "attribute::*", "following::node()", "preceding::node()", ".." };
             std::string body; for (auto c1 : ctx) { body += std::string("[") + c1 + ":"; for (auto a1 : ax) body += vo(std::string("count(") + c1 + "/" + a1 + ")") + ","; body += "]"; }
             perNode += "<xsl:if test=\"count(preceding::*) mod 3 = 1 or not(ancestor::*)\">" + o("axes-matrix", body) + "</xsl:if>"; }
+        // grouping attributes computed at run time; a separator of two characters (at @v = 7) is an error raised inside xsl:number
+        if (on("num-groupsep")) perNode += o("num-groupsep", "<xsl:number value=\"(count(preceding::*) + 1) * 98765432101\" grouping-separator=\"{substring(',,', 1, 1 + number(@v = 7))}\" grouping-size=\"{1 + count(*) mod 4}\"/>|<xsl:number value=\"(count(preceding::*) + 1) * 987654321\" grouping-separator=\"'\" grouping-size=\"3\"/>|<xsl:number value=\"count(preceding::*) * 1234567 + 123456789012\" grouping-separator=\".\" grouping-size=\"2\" format=\"01\"/>");
         // many result tree fragments alive at the same time (arena blocks of the fragment allocators hold 10)
         if (on("manyrtf")) { std::string vars, uses; for (int i = 0; i < 13; ++i) { std::string n = "mr" + std::to_string(i); vars += "<xsl:variable name=\"" + n + "\"><r" + std::to_string(i) + "><xsl:value-of select=\"@id\"/></r" + std::to_string(i) + ">t" + std::to_string(i) + "</xsl:variable>"; uses += "<xsl:value-of select=\"string-length($" + n + ")\"/>,"; }
             perNode += "<xsl:if test=\"count(preceding::*) mod 4 = 0\">" + vars + "<o f=\"manyrtf\" n=\"{@id}\">" + uses + "<xsl:copy-of select=\"$mr12\"/></o></xsl:if>"; }
@@ -447,7 +450,13 @@ struct SSGen {
         else if (c.abortKind == "key") abortCode = "<xsl:value-of select=\"count(key('nosuchkey', 1))\"/>";
         else if (c.abortKind == "extfn") abortCode = "<xsl:value-of select=\"nofn:nothing(1)\"/>";
         else if (c.abortKind == "badname") abortCode = "<xsl:element name=\"{concat('1bad ', @id)}\"/>";
-        if (!abortCode.empty()) perNode = "<xsl:if test=\"@id = '" + c.abortNode + "'\">" + abortCode + "</xsl:if>" + perNode;
+        if (!abortCode.empty()) {
+            // where the abort strikes: directly in the template, three iterations deep, or inside a variable body that already holds text
+            std::string guarded = "<xsl:if test=\"@id = '" + c.abortNode + "'\">" + abortCode + "</xsl:if>";
+            if (c.abortPlace == 1) guarded = "<xsl:for-each select=\". | *[1]\"><xsl:for-each select=\"..//*[position() &lt; 4] | .\"><xsl:for-each select=\"ancestor-or-self::*\">" + guarded + "</xsl:for-each></xsl:for-each></xsl:for-each>";
+            else if (c.abortPlace == 2) guarded = "<xsl:variable name=\"abv\">LEFTOVER-<xsl:value-of select=\"@id\"/>" + guarded + "<t/></xsl:variable><xsl:if test=\"string-length($abv) = 0\">x</xsl:if>";
+            perNode = guarded + perNode;
+        }
 
         // ---- assemble ----
         std::string s = "<?xml version=\"1.0\"?>\n<xsl:stylesheet version=\"1.0\" xmlns:xsl=\"http://www.w3.org/1999/XSL/Transform\"";
@@ -470,12 +479,12 @@ struct SSGen {
         }
         if (c.stripSpace) s += "<xsl:strip-space elements=\"*\"/><xsl:preserve-space elements=\"p item\"/>\n";
         if (c.useParam || c.on.count("param") || c.on.count("paramuse") || c.on.count("gate") || c.on.count("num-gate") || c.on.count("sort-gate")) s += "<xsl:param name=\"P1\" select=\"'dflt'\"/><xsl:param name=\"P2\" select=\"40\"/>\n";
-        s += "<xsl:variable name=\"G1\" select=\"count(//*)\"/>\n";
+        s += "<xsl:variable name=\"G1\" select=\"count(//*)\"/><xsl:variable name=\"GP\" select=\"concat(position(), '/', last())\"/>\n";
         if (c.on.count("gate") || c.on.count("num-gate")) s += "<xsl:variable name=\"GATE\"><xsl:if test=\"$P1 = 'abort'\"><xsl:message terminate=\"yes\">gate closed</xsl:message></xsl:if><xsl:if test=\"$P1 = 'badkey'\"><xsl:value-of select=\"count(key('nosuchkey', 1))\"/></xsl:if>open</xsl:variable>\n";
         if (c.on.count("lazyvar")) s += "<xsl:variable name=\"LAZY1\" select=\"sum(//@v[. &gt; 0])\"/><xsl:variable name=\"LAZY2\" select=\"//*[@k][position() &lt; 4]\"/>\n";
         if (c.docFn) out.resources["aux.xml"] = "<?xml version=\"1.0\"?><aux><x id=\"x1\">one</x><x id=\"x2\">two</x><y><x id=\"x3\">three</x></y></aux>";
         s += top + "\n";
-        s += "<xsl:template match=\"/\"><" + c.rootName + " total=\"{$G1}\">" + rootBody;
+        s += "<xsl:template match=\"/\"><" + c.rootName + " total=\"{$G1}\" ctx=\"{position()}/{last()}/{$GP}\">" + rootBody;
         if (c.useInclude) s += "<o f=\"include\" n=\"/\"><xsl:call-template name=\"incT\"><xsl:with-param name=\"x\" select=\"$G1\"/></xsl:call-template></o>";
         if (c.useImport) s += "<o f=\"import-var\" n=\"/\"><xsl:value-of select=\"$IMPV\"/></o>";
         if (c.cdataElems) s += "<cd><xsl:value-of select=\"normalize-space((//text()[normalize-space()])[1])\"/></cd>";
